@@ -32,12 +32,13 @@ theorem c20_on_source (t : AT) (rs : List Rec) (hperm : rs.Perm (vals (extract t
 
 
 
+
 -- BEGIN PINS (written by bin/mkpins; do not edit by hand)
 /-- the Go functions this property's model and obligations were written against have exactly the
 pinned skeletons (SHA-256 prefix of the atom list) -/
 theorem pinned_skeletons_c20 :
     pinsOk
-    [("Cmd.#decls", "a23633f4a063b15d"),
+    [("Cmd.#decls", "89450b1c59cda39b"),
      ("Cmd.auditInfoToBash", "f6e390e820bddca3"),
      ("Cmd.auditInfoToHTML", "c3cd59286ae045b7"),
      ("Cmd.auditInfoToTeX", "941e026968db81bd"),
